@@ -1,7 +1,8 @@
-import DcmVerif.Proofs.CodeStack
-/-! The tie by proof (dcmstack.py): functions translated from the Python source on every run
-(`tools/gen_code.py` → `Generated/Code.lean`) are the model functions the property theorems speak about.
-Statements only; proofs are by reference to `Proofs/CodeStack.lean`. -/
+import DcmVerif.Proofs.Code_stack
+/-! The tie by proof (dcmstack.py: DicomStack.get_shape / _chk_order): functions translated from the Python source on every run
+(`tools/gen_code.py` → `Generated/Code_stack.lean`) are the model functions the property theorems speak about.
+Statements only; proofs are by reference to `Proofs/Code_stack.lean`. One file per function group, so that an edit
+of one function only unsettles the properties that depend on it. -/
 set_option autoImplicit false
 set_option linter.unusedVariables false
 open Cls
@@ -9,16 +10,6 @@ open Cls
 namespace Source
 variable {α κ : Type}
 open Src Stk
-
-/-- **the file index `get_data` computes is the model's `fileIdx`** -/
-theorem file_idx_is_model (rows cols S T V v t s : Nat) :
-    Py.file_idx_slice [rows, cols, S, T, V] v t s = Stk.fileIdx S T s t v :=
-  Src.file_idx_eq rows cols S T V v t s
-
-/-- one file per volume: the index is the volume number -/
-theorem file_idx_volume_is_model (rows cols S T V v t : Nat) :
-    Py.file_idx_volume [rows, cols, S, T, V] v t = v * T + t :=
-  Src.file_idx_volume_eq rows cols S T V v t
 
 /-- **the count checks of `get_shape` as written in dcmstack.py are the count conjuncts of the model's
     acceptance test**, and the dimensions they derive are the model's `dimS`, `dimT`, `dimV` -/
@@ -37,11 +28,6 @@ theorem accept_is_counts_and_order (spacingOk : List Int → Bool) (files : List
           (chkSort (dimS files) (files.length / dimS files) files)).all
         (fun b => b.map (·.p) == distinctSorted (files.map (·.p)))) :=
   Src.acceptB_counts spacingOk files
-
-/-- **the trimming block of `get_data` as written in dcmstack.py is the model's `stackTrim`** -/
-theorem get_data_trim_is_model (a : Wrap.Arr α) (rows cols S T V : Nat) :
-    Py.get_data_trim a [rows, cols, S, T, V] = .ok (Wrap.stackTrim a T V) :=
-  Src.get_data_trim_eq a rows cols S T V
 
 /-- **the thorough check of `_chk_order` as written in dcmstack.py passes iff every cell of the grid
     holds the right file**: at (vector `v`, time `t`, slice `s`) of the sorted list the vector ordinate is
@@ -76,7 +62,7 @@ theorem get_shape_accepts_iff_model (spacingOk : List Int → Bool) (files : Lis
           (distinctSorted (files.map (·.p))) (dimS files) (dimT files) (dimV files) = .ok () :=
   Src.source_accepts_iff spacingOk files
 
-/-- the translator translated every function of dcmstack.py it is asked for -/
-theorem translator_complete_stack : Gen.codeMissingStack = [] := rfl
+/-- the translator translated every function of this group (dcmstack.py: DicomStack.get_shape / _chk_order) -/
+theorem translator_complete_stack : Gen.codeMissing_stack = [] := rfl
 
 end Source
